@@ -110,7 +110,18 @@ def monitors_child(rec):
                     hdr = [l for l in hdr if not l.upper().startswith('BYTEORDER')] + ['BYTEORDER      ' + bo]
                     open(fo[:-3] + 'hdr', 'w').write('\n'.join(l for l in hdr if l.strip()) + '\n')
                     h = Grid.from_header(fo)
-                    if not (h.data.shape == src.shape and np.array_equal(h.data, src, equal_nan=(d.kind == 'f'))):
+                    ok_bo = h.data.shape == src.shape and np.array_equal(h.data, src, equal_nan=(d.kind == 'f'))
+                    # the grid holds the values in its own (native) type; saved again and reloaded they are still the same
+                    if ok_bo and not (h.data.dtype == d and np.dtype(h.dtype) == d and same_bits(h.data, src)):
+                        bad += 1; _fail(rec, 'Grid.from_header', 'byteorder: a raster with BYTEORDER %s is held as %s (grid dtype %s) instead of the native type' % (bo, h.data.dtype.str, np.dtype(h.dtype).str), **desc)
+                        break
+                    if ok_bo:
+                        f2 = os.path.join(tmp, 'r%d_%s.bil' % (it, bo))
+                        h.save(f2); h2 = Grid.from_header(f2)
+                        if not same_bits(h2.data, src):
+                            bad += 1; _fail(rec, 'Grid.save/from_header', 'byteorder: a raster read with BYTEORDER %s, saved and loaded again has other values (first %r vs %r)' % (bo, [repr(x) for x in h2.data.ravel()[:3]], [repr(x) for x in src.ravel()[:3]]), **desc)
+                            break
+                    if not ok_bo:
                         bad += 1; _fail(rec, 'Grid.from_header', 'byteorder: a raster with BYTEORDER %s is read with wrong values (first %r vs %r)' % (bo, [repr(x) for x in h.data.ravel()[:3]], [repr(x) for x in src.ravel()[:3]]), **desc)
                         break
             except Exception as e:
